@@ -207,7 +207,8 @@ def run_one(ch, cfg):
         if cls == "at-rest":
             kind = ch.pick(["message", "signature", "tweak", "swap-signatures", "re-sign",
                             "re-parent", "add-target", "remove-target", "drop-tweak",
-                            "signature-malleation", "signature-malleation"], "rest.kind")
+                            "signature-malleation", "signature-malleation", "root-named-element"],
+                           "rest.kind")
             elems = doc["elements"]
             e = elems[ch.draw(len(elems), "rest.elem")]
             elem_name = e["name"]
@@ -217,6 +218,20 @@ def run_one(ch, cfg):
                 e["signature"], how = malleate_signature(bytes.fromhex(e["signature"]), ch, "rest")
                 e["signature"] = e["signature"].hex()
                 kind = "malleation:" + how
+            elif kind == "root-named-element":
+                # an element that carries the reserved name of the root of trust: either a stray copy
+                # of a genuine element, or the certifier of a chain re-signed by a stranger
+                twin = dict(e)
+                twin["name"] = "root"
+                if ch.draw(2, "rootnamed.forged") == 1:
+                    top = [x for x in elems if x["signed_by"] == "root"][0]
+                    forger = Key(scalar(b"forger" + ch.bytes(4, "rest.k")))
+                    top["signature"] = forger.sign(bytes.fromhex(top["message"])).hex()
+                    top.pop("tweak", None)
+                    twin = {"name": "root", "message": forger.pub65.hex(), "signed_by": "root",
+                            "signature": forger.sign(forger.pub65).hex()}
+                    kind = "root-named-element:forged"
+                elems.insert(ch.draw(len(elems) + 1, "rootnamed.pos"), twin)
             elif kind == "tweak":
                 if "tweak" in e:
                     e["tweak"] = flip(bytes.fromhex(e["tweak"]), ch, "rest").hex()
